@@ -77,8 +77,12 @@ def run(ctx, res):
     # 2. random profiles, 2-6 candidates, 1-60 ballots
     rnd = [R.gen_case(rng) for _ in range(ctx.n(1600, 20000))]
     cases = R.run_cases(ex) + R.run_cases(rnd, rng)
-    cr = C.run_corr(ctx.pid, "raire", R.IMPORTS, "raire_case", cases, R.case_lit, "agree_c04", shard=250, show="show_c04")
-    res.corr.append(("compute_raire_assertions output vs verified check_output / possible (RaireCheck.v)", cr, R.case_json))
+    cr = C.run_corr(ctx.pid, "raire_ex", R.IMPORTS, "raire_case", ex, R.case_lit, "agree_c04", shard=500, show="show_c04")
+    res.corr.append(("compute_raire_assertions output vs verified check_output / possible (RaireCheck.v), exhaustive small profiles",
+                     cr, R.case_json))
+    cr = C.run_corr(ctx.pid, "raire_rnd", R.IMPORTS, "raire_case", rnd, R.case_lit, "agree_c04", shard=40, show="show_c04")
+    res.corr.append(("compute_raire_assertions output vs verified check_output / possible (RaireCheck.v), random profiles",
+                     cr, R.case_json))
     vc = vote_cases(rng, ctx.n(300, 3000))
     cr2 = C.run_corr(ctx.pid, "votes", R.IMPORTS, "list ballot * assertion * list bool * list bool", vc, vote_lit,
                      "agree_votes", shard=250, show="show_votes")
